@@ -128,6 +128,20 @@ def attr_text(f):
     return "#[%s(%s)]" % (head, ", ".join(parts))
 
 
+def discr_literal(form, val):
+    """spellings of an enum discriminant literal"""
+    if form == "hex":
+        return "0x%X" % val
+    if form == "bin":
+        return "0b{:b}".format(val)
+    if form == "oct":
+        return "0o{:o}".format(val)
+    if form == "under":
+        t = "%d" % val
+        return (t[0] + "_" + t[1:]) if len(t) > 1 else t + "_"
+    return "%d" % val
+
+
 def default_literal(form, val, s):
     """the spellings of an integer literal a user may write for `default = ...`"""
     def under(txt, k):
@@ -182,7 +196,7 @@ def decl_source(d, doc=False, derive_debug_enums=True, vis="pub "):
                 out.extend(["    #[cfg(all())]", "    #[cfg(any())]"])
             elif v.get("cfg") == "offon":
                 out.extend(["    #[cfg(any())]", "    #[cfg(all())]"])
-            out.append("    %s = %d," % (v["name"], bits_to_int(v["d"])))
+            out.append("    %s = %s," % (v["name"], discr_literal(v.get("form", "lit"), bits_to_int(v["d"]))))
         out.append("}")
     for nd in d["nested"]:
         if doc:
